@@ -171,6 +171,7 @@ class Gen:
         self.dirty = dirty
         self.mark_no = 0
         self.scope_no = 0
+        self.try_depth = 0    # > 0 while generating the body of a try: a throw is caught
         self.numvars = ["gA", "gB"]
         self.scopes = []
         self.btypes = ["any"]  # result types of the enclosing blocks (an exitWith body yields the enclosing block's type)
@@ -188,9 +189,18 @@ class Gen:
         r = self.rng
         if d <= 0:
             return r.choice([num(r.randint(0, 5)), var(r.choice(self.numvars))])
-        k = self.pick(["lit", "lit", "var", "bin", "call", "if", "cnt", "fcount", "ffindif", "switch", "try", "callw", "sel"])
+        k = self.pick(["lit", "lit", "var", "bin", "call", "if", "cnt", "fcount", "ffindif", "switch", "try", "callw", "sel", "scopedval"])
         if k == "lit":
             return num(r.randint(0, 5))
+        if k == "scopedval":
+            # a named scope left by breakOut-with-value while operands of the left scopes are pending
+            self.scope_no += 1
+            name = "s%d" % self.scope_no
+            bo = call([{"k": "breakout", "s": name, "x": self.e_num(0)}])
+            inner = binop(r.choice(["+", "-"]), self.e_num(d - 1), bo)
+            if r.random() < 0.5:
+                inner = binop("+", num(r.randint(1, 5)), call([st_expr(inner)]))
+            return call([{"k": "scopename", "s": name}] + ([self.new_mark()] if r.random() < 0.3 else []) + [st_expr(inner)])
         if k == "var":
             return var(r.choice(self.numvars))
         if k == "bin":
@@ -213,10 +223,16 @@ class Gen:
         if k == "switch":
             return {"k": "switch", "v": self.e_num(0), "body": self.switch_body(d - 1)}
         if k == "try":
+            self.try_depth += 1
             body = self.block(d - 1, "num")
+            self.try_depth -= 1
             if r.random() < 0.6:
                 body.insert(r.randint(0, len(body) - 1), {"k": "throw", "x": self.e_num(0)})
-            return {"k": "try", "body": body, "handler": self.block(d - 1, "num", extra=[st_expr(var("_exception"))] if r.random() < 0.5 else None)}
+            handler = self.block(d - 1, "num", extra=[st_expr(var("_exception"))] if r.random() < 0.5 else None)
+            if self.try_depth > 0 and r.random() < 0.4:
+                # the handler itself throws: that exception belongs to the next try further out
+                handler.insert(r.randint(0, len(handler) - 1), {"k": "throw", "x": binop("+", var("_exception"), num(1)) if r.random() < 0.5 else self.e_num(0)})
+            return {"k": "try", "body": body, "handler": handler}
         raise ValueError(k)
 
     def e_bool(self, d):
@@ -348,6 +364,9 @@ class Gen:
             self.no_exit -= 1
         if extra:
             out += extra
+        if guard and r.random() < 0.3:
+            # the body rebinds its own _x: the construct still works on the array's elements
+            out.append(assign("_x", binop(r.choice(["+", "*"]), var("_x"), num(r.randint(1, 3)))))
         if result == "num":
             out.append(st_expr(self.e_num(d)))
         elif result == "bool":
